@@ -256,7 +256,7 @@ def run_member_joint(R, binary):
         per_profile, events, workers = 8, 250, 1
     else:
         per_profile, events, workers = 400, 600, max(2, min(10, (os.cpu_count() or 4) - 2))
-    lines, harness_s, rc_all = [], 0.0, 0
+    lines, harness_s, rc_all, t_suite = [], 0.0, 0, time.time()
     for k, prof in enumerate(("member-joint", "member-joint-partition")):
         t0 = time.time()
         l1, se, rc = core.run_harness(binary, "raftsim", [], args=["-schedules", str(per_profile), "-events", str(events), "-seed", str(R.seed * 17 + 11 + k),
@@ -264,7 +264,30 @@ def run_member_joint(R, binary):
         harness_s += time.time() - t0
         rc_all = rc_all or rc
         lines += l1
-    ds = run_driver_parallel(lines, workers)
+    # negative control: damage one event per schedule (the outgoing-voters field, else the term); the driver must object to each
+    ctl, damaged = [], 0
+    for start, sched in split_schedules(lines):
+        es = [i for i, l in enumerate(sched) if l.startswith("E ")]
+        if not sched or not sched[0].startswith("R ") or len(es) < 6 or damaged >= 8:
+            continue
+        sched = list(sched)
+        cand = [i for i in es if sched[i].split(" ")[-4] != "-"]
+        if cand:
+            at = cand[len(cand) // 2]
+            f = sched[at].split(" ")
+            f[-4] = "-"  # the node is said to have left the joint configuration
+        else:
+            at = es[len(es) // 2]
+            f = sched[at].split(" ")
+            f[4] = str(int(f[4]) + 7) if f[4].isdigit() else "7"
+        sched[at] = " ".join(f)
+        ctl += sched[:at + 1]  # the schedule up to the damaged event
+        damaged += 1
+    # the control runs beside the lock-step itself (each interpreted driver spends ~4 s loading the model)
+    with concurrent.futures.ThreadPoolExecutor(max_workers=2) as ex:
+        fut_ctl = ex.submit(run_raft_driver, ctl) if damaged else None
+        ds = run_driver_parallel(lines, workers)
+        dc = fut_ctl.result() if fut_ctl else None
     mism = [m for d in ds for m in d["mismatches"] if " impl-safety :: " not in m]
     unk = [u for d in ds for u in d["unknown"]]
     summ = {}
@@ -305,27 +328,7 @@ def run_member_joint(R, binary):
     R.oblige("member-joint schedules: every Campaign() campaigns iff RSJ.campaignGate (JH lines), every applied legacy ConfChange moves the tracker as RSC.applyChange (CF lines)",
              "correspondence", not tie_mism and summ.get("d:JH", 0) + summ.get("d:CF", 0) == len(tie_lines), "%d lines judged of %d, %d mismatches" % (
                  summ.get("d:JH", 0) + summ.get("d:CF", 0), len(tie_lines), len(tie_mism)))
-    # negative control: damage one event per schedule (the outgoing-voters field, else the term); the driver must object to each
-    ctl, damaged = [], 0
-    for start, sched in split_schedules(lines):
-        es = [i for i, l in enumerate(sched) if l.startswith("E ")]
-        if not sched or not sched[0].startswith("R ") or len(es) < 6 or damaged >= 8:
-            continue
-        sched = list(sched)
-        cand = [i for i in es if sched[i].split(" ")[-4] != "-"]
-        if cand:
-            at = cand[len(cand) // 2]
-            f = sched[at].split(" ")
-            f[-4] = "-"  # the node is said to have left the joint configuration
-        else:
-            at = es[len(es) // 2]
-            f = sched[at].split(" ")
-            f[4] = str(int(f[4]) + 7) if f[4].isdigit() else "7"
-        sched[at] = " ".join(f)
-        ctl += sched[:at + 1]  # the schedule up to the damaged event
-        damaged += 1
     if damaged:
-        dc = run_raft_driver(ctl)
         hit = len(set(m.split()[1] for m in dc["mismatches"] + dc["unknown"] if len(m.split()) > 1))
         R.oblige("negative control member-joint lock-step: the driver objects to damaged projections (outgoing voters dropped / term changed; %d schedules damaged, "
                  "%d objections)" % (damaged, hit), "control", hit >= damaged, "%d of %d" % (hit, damaged))
@@ -334,7 +337,7 @@ def run_member_joint(R, binary):
             R.violation("negative-control-member-joint", dict(kind="tie-broken", summary="the member-joint lock-step driver accepted damaged projections (%d of %d reported)" % (
                 hit, damaged), trace=ctl[:60]), found_input=False)
     R.suites.append(dict(name="member-joint-lockstep", schedules=summ.get("member-joint-schedules", 0), events=nev, mismatches=len(mism) + len(unk),
-                         safety_violations=len(safety), harness_s=round(harness_s, 1), driver_s=round(max(d["seconds"] for d in ds), 1), driver_processes=len(ds)))
+                         safety_violations=len(safety), wall_s=round(time.time() - t_suite, 1), harness_s=round(harness_s, 1), driver_s=round(max(d["seconds"] for d in ds), 1), driver_processes=len(ds)))
     R.extra["stageD_member_joint_lockstep"] = dict(
         schedules=summ.get("member-joint-schedules", 0), events=nev, mismatches=len(mism) + len(unk),
         model_inputs={k[5:]: v for k, v in sorted(summ.items()) if k.startswith("in-j-")},
